@@ -10,6 +10,7 @@ from sa.shapes import Symboliser, bits_of, compare_fields, explore_or_blame, hex
 MMOD = "motorola"
 KEEP = {"pdu_type", "has_more_headers", "is_control_message", "is_reserved"}
 WIDTHS = {"sequence_number": 7, "refresh_time": 7}
+MIN_FOLLOWED = {"TextMessagingService": 4, "AutomaticRegistrationService": 7}   # captured packets followed through reader and writer today
 NON_ASCII = ["žluť", "p€ss", "ID-ø1"]
 
 
@@ -44,6 +45,7 @@ def run(ctx):
         sd = hex_seeds(repo, tfile, 6)
         I0 = Interp(repo)
         shapes = {}
+        followed = set()
         for fname, raw in sd:
             def run_c(st, raw=raw):
                 I0.st = st
@@ -55,12 +57,22 @@ def run(ctx):
                 res = explore(run_c, max_paths=8)
             except AnalysisError:
                 continue
+            if any(k_ == "abort" for _, (k_, _v) in res):
+                # the captured packet cannot be followed through the reader / writer any more: the shape would silently drop out
+                raise AnalysisError(f"captured packet {raw[:8].hex()}… ({fname}): {next(v_ for _, (k_, v_) in res if k_ == 'abort')}")
+            if len(res) == 1 and res[0][1][0] == "raise" and res[0][1][1].exc in ("TypeError", "AttributeError", "NameError", "UnboundLocalError"):
+                # the tests decode this very packet: a type confusion here is the analysis not following the code, not the code
+                raise AnalysisError(f"captured packet {raw[:8].hex()}… ({fname}): the reader is not followed ({res[0][1][1].exc} at {res[0][1][1].msg})")
             if len(res) != 1 or res[0][1][0] != "ok":
                 continue
             o, back = res[0][1][1]
             if bits_of(I0, back) != bits_of(I0, raw):
                 continue
             shapes.setdefault(shape_of(o), raw)
+            followed.add(raw)
+        ctx.extra[f"captures_followed_{ci.name}"] = len(followed)
+        if len(followed) < MIN_FOLLOWED[ci.name]:
+            raise AnalysisError(f"only {len(followed)} captured {ci.name} packets are followed through reader and writer ({MIN_FOLLOWED[ci.name]} on the reference tree) — shapes would be missing")
         for shp, raw in sorted(shapes.items(), key=lambda kv: repr(kv[0])):
             analyse(ctx, repo, ci, fb, raw, fam)
             with ctx.guard(f"enum members of shape {raw[:6].hex()}"):
